@@ -28,20 +28,24 @@ def nats? (s : String) : Option (List Nat) :=
 
 def mdo (x : MSt) (st : MStep) : MSt := { x with m := mdoT x.st.u x.m st }
 
+/-- Process one message; print `illegal <line>` when the side conditions of the legality theorems do not hold. -/
+def mdoC (x : MSt) (st : MStep) (line : String) : MSt × List String :=
+  (mdo x st, if stepOKb x.st.u x.m st then [] else ["illegal " ++ line])
+
 def mstepLine (x : MSt) (line : String) : MSt × List String :=
   let bad := (x, ["bad-op " ++ line])
   match line.splitOn " " with
   | ["RC"] => ({ x with m := { x.m with cfg := x.st.cfg } }, [])
   | ["X"] => ({ x with m := { cfg := {}, dyn := { loaded := fun _ => false, on := fun _ _ => false, tgts := fun _ _ => [] },
                                tbl := [] } }, [])
-  | ["ML", i] => match i.toNat? with | some i => (mdo x (.load i), []) | none => bad
-  | ["MU", i] => match i.toNat? with | some i => (mdo x (.unload i), []) | none => bad
-  | ["MS", i, es] => match i.toNat?, ints? es with | some i, some es => (mdo x (.start i es), []) | _, _ => bad
-  | ["MT", i, es] => match i.toNat?, ints? es with | some i, some es => (mdo x (.stop i es), []) | _, _ => bad
+  | ["ML", i] => match i.toNat? with | some i => mdoC x (.load i) line | none => bad
+  | ["MU", i] => match i.toNat? with | some i => mdoC x (.unload i) line | none => bad
+  | ["MS", i, es] => match i.toNat?, ints? es with | some i, some es => mdoC x (.start i es) line | _, _ => bad
+  | ["MT", i, es] => match i.toNat?, ints? es with | some i, some es => mdoC x (.stop i es) line | _, _ => bad
   | ["MA", i, e, ts] => match i.toNat?, e.toInt?, nats? ts with
-    | some i, some e, some ts => (mdo x (.apply i e ts), []) | _, _, _ => bad
+    | some i, some e, some ts => mdoC x (.apply i e ts) line | _, _, _ => bad
   | ["MN", i, e, ts] => match i.toNat?, e.toInt?, nats? ts with
-    | some i, some e, some ts => (mdo x (.unapply i e ts), []) | _, _, _ => bad
+    | some i, some e, some ts => mdoC x (.unapply i e ts) line | _, _, _ => bad
   | ["BS", i, e, ms] =>
     -- warfare-buff modifiers: `-` or `f,d,x,t,o,a,k,s;...` (8 fields per modifier, `_` for none)
     let parseM (t : String) : Option Modifier :=
@@ -54,7 +58,7 @@ def mstepLine (x : MSt) (line : String) : MSt × List String :=
     match i.toNat?, e.toInt?, (if ms == "-" then some [] else (ms.splitOn ";").mapM parseM) with
     | some i, some e, some ms =>
       -- the model ignores payload that is not a buff modifier of this universe; the real service never builds such
-      if ms.all (bspecOK x.st.u) then (mdo x (.buffset i e ms), []) else (x, ["bad-op ill-formed buff payload"])
+      if ms.all (bspecOK x.st.u) then mdoC x (.buffset i e ms) line else (x, ["bad-op ill-formed buff payload"])
     | _, _, _ => bad
   | ["MC", i, a] => match i.toNat?, a.toInt? with | some i, some a => (mdo x (.changed i a), []) | _, _ => bad
   | ["MR", i, a] => match i.toNat?, a.toInt? with
@@ -76,7 +80,7 @@ def mstepLine (x : MSt) (line : String) : MSt × List String :=
       ((running u x.m.dyn a).filter (·.isBuff)).map fun e =>
         match buffModifiers u (readDep u t) a with
         | .ok ms =>
-          let l := ((ms.map showM).mergeSort (fun p q => p ≤ q)).eraseDups
+          let l := (ms.map showM).mergeSort (fun p q => p ≤ q)
           s!"B {a.id} {e.id} " ++ (if l.isEmpty then "-" else ";".intercalate l)
         | .error _ => s!"B {a.id} {e.id} err"
     -- ... and the recorded targets of those boosts against the ships the specification boosts
